@@ -17,7 +17,7 @@ import threading
 from urllib.parse import quote, unquote
 
 from ..monitors import contracts
-from ..monitors.reach import Reach
+from ..monitors.reach import Reach, opt
 
 ID = "C19"
 RULE = (
@@ -344,8 +344,19 @@ def check_exchange(S, rec, rng):
     version = rng.choice(["HTTP/1.0", "HTTP/1.1"])
     seen = {}
 
+    plan = rng.choice(["normal"] * 6 + ["restart_with_length", "raise_before_body", "restart_without_length"])
+
     def app(environ, start_response):
         seen["env"] = dict(environ)
+        try:
+            return app_body(environ, start_response)
+        except ZeroDivisionError:
+            raise
+        except Exception as e:  # noqa: BLE001 - reading a well-formed request body must not fail
+            seen.setdefault("error", f"{type(e).__name__}: {e}")
+            raise
+
+    def app_body(environ, start_response):
         inp = environ["wsgi.input"]
         got = b""
         if environ.get("wsgi.input_terminated"):
@@ -369,7 +380,28 @@ def check_exchange(S, rec, rng):
         h = [("X-App", "1"), ("X-App", "2")]
         if with_cl:
             h.append(("Content-Length", str(sum(map(len, chunks)))))
-        w = start_response(status, h)
+        if plan == "restart_with_length":
+            # headers announced first without a length, then replaced (exc_info) before anything was written
+            start_response("500 Early", [("X-App", "0")])
+            try:
+                raise RuntimeError("replace headers")
+            except RuntimeError:
+                import sys as _sys
+
+                w = start_response(status, h, _sys.exc_info())
+        elif plan == "restart_without_length":
+            start_response("500 Early", [("X-App", "0"), ("Content-Length", "3")])
+            try:
+                raise RuntimeError("replace headers")
+            except RuntimeError:
+                import sys as _sys
+
+                w = start_response(status, h, _sys.exc_info())
+        elif plan == "raise_before_body":
+            start_response(status, [("X-App", "1")])
+            raise ZeroDivisionError("application failed before the first body byte")
+        else:
+            w = start_response(status, h)
         if use_write:
             for c in chunks:
                 w(c)
@@ -392,6 +424,11 @@ def check_exchange(S, rec, rng):
         rec.violation("C19/application-not-called", f"response {out[:200]!r}; {case}", case, monitor="request-side")
         return
     env = seen["env"]
+    if "error" in seen:
+        rec.violation("C19/reading-wellformed-request-body-raises", f"{seen['error']}; {case}", case, monitor="request-side")
+        return
+    case["plan"] = plan
+    rec.observe("plan:" + plan)
 
     def bad(key, msg):
         rec.violation(key, f"{msg}; {case}", case, monitor="request-side")
@@ -425,6 +462,19 @@ def check_exchange(S, rec, rng):
 
     if resp is None:
         return rbad("C19/response-unparsable", f"{out[:200]!r}")
+    te0 = [v for k, v in resp["headers"] if k.lower() == "transfer-encoding"]
+    cl0 = [v for k, v in resp["headers"] if k.lower() == "content-length"]
+    if te0 and cl0:
+        return rbad("C19/content-length-and-chunked-framing-together", f"{resp['headers']!r}")
+    if plan == "raise_before_body":
+        # the server answers with its own error page: only the framing is checked
+        if cl0 and len(resp["rest"]) != int(cl0[0]) and method != "HEAD":
+            return rbad("C19/response-body-differs", f"error page: Content-Length {cl0[0]} but {len(resp['rest'])} body bytes")
+        if te0:
+            dec, why = dechunk_response(resp["rest"])
+            if dec is None:
+                return rbad("C19/response-chunk-framing-broken", f"error page: {why}")
+        return
     code = int(status[:3])
     if resp["version"] != version or resp["code"] != code:
         return rbad("C19/status-line-differs", f"{resp['version']} {resp['code']} vs {version} {code}")
@@ -524,8 +574,8 @@ def run(shard, rec, rng):
     S = world()
     install(S)
     H = S.WSGIRequestHandler
-    reach = Reach(rec, {"DechunkedInput.readinto": vars(S.DechunkedInput)["readinto"], "DechunkedInput.read_chunk_len": S.DechunkedInput.read_chunk_len,
-                        "WSGIRequestHandler.make_environ": H.make_environ, "WSGIRequestHandler.run_wsgi": H.run_wsgi, "WSGIRequestHandler.handle": H.handle})
+    reach = Reach(rec, {"DechunkedInput.readinto": opt(lambda: vars(S.DechunkedInput)["readinto"]), "DechunkedInput.read_chunk_len": opt(lambda: S.DechunkedInput.read_chunk_len),
+                        "WSGIRequestHandler.make_environ": opt(lambda: H.make_environ), "WSGIRequestHandler.run_wsgi": opt(lambda: H.run_wsgi), "WSGIRequestHandler.handle": opt(lambda: H.handle)})
     cfg = TIERS[shard["_tier"]]
     if shard["kind"] == "live":
         run_live(S, rec, rng)
